@@ -9,7 +9,7 @@ from ..gen import fmt
 
 from octoprint_excluderegion.GcodeParser import GcodeParser
 
-ALPHABET = list("GMTNXYZEFSPgmtnxyze") + list("0123456789") * 2 + list("+-..  \t**;;\\\\(@") + ["\r", "\n", "\n", "\r\n", "é", "W", "w", ":"]
+ALPHABET = list("GMTNXYZEFSPgmtnxyze") + list("0123456789") * 2 + list("+-..  \t**;;\\\\(@") + ["\r", "\n", "\n", "\r\n", "é", "W", "w", ":", "✓", "温", "Ł", "𝄞"]
 
 
 def rand_text(rnd, maxlen=60):
@@ -35,12 +35,12 @@ def structured_line(rnd):
         parts.append(rnd.choice(["@pause", "@ExcludeRegion off", "hello", "ok T:20", "(comment)", ""]))
     parts.append(ws())
     for _ in range(rnd.randint(0, 4)):
-        w = rnd.choice("XYZEFSPxyze") + ws() + rnd.choice(["", "1", "-1.5", "+.5", "5.", "0010", "1e3", "\\;", "\\\\", "a b"])
+        w = rnd.choice("XYZEFSPxyze") + ws() + rnd.choice(["", "1", "-1.5", "+.5", "5.", "0010", "1e3", "\\;", "\\\\", "a b", "✓", "温度"])
         parts.append(w + ws())
     if rnd.random() < 0.4:
         parts.append("*" + str(rnd.randint(0, 255)) + ws())
     if rnd.random() < 0.4:
-        parts.append(";" + rnd.choice(["", " comment", " N5 G1 *3", ";;", " \\"]))
+        parts.append(";" + rnd.choice(["", " comment", " N5 G1 *3", ";;", " \\", " done ✓", " 温度 60"]))
     parts.append(rnd.choice(["\n", "\n", "\r\n", "\r", ""]))
     return "".join(parts)
 
@@ -262,7 +262,7 @@ class C19(Monitor):
         else:
             words, text = gen_words(rnd, "XYIJEFXYIJXYZ", rnd.randint(2, 6))
             cmd = rnd.choice(["G2", "G3"]) + text
-        return dict(t="handler", pre=pre, cmd=cmd, words=words)
+        return dict(t="handler", pre=pre, cmd=cmd, words=words, mode=rnd.choice(["plain", "plain", "disabled", "covered"]))
 
     def check_case(self, case):
         stats = collections.Counter()
@@ -315,9 +315,14 @@ class C19(Monitor):
 
     @staticmethod
     def check_handler(it, stats):
-        core = Core([], {})
+        # "covered": one region over the whole plane (every move is suppressed, the handlers still have to act on the words);
+        # "disabled": exclusion switched off by the @-command (nothing is suppressed, the position is still tracked)
+        mode = it.get("mode", "plain")
+        core = Core([["rect", -1e7, -1e7, 1e7, 1e7, "all"]] if mode in ("covered", "disabled") else [], {})
         B = Printer(False)
         try:
+            if mode == "disabled":
+                core.at("ExcludeRegion", "off")
             for c in it["pre"]:
                 core.gcode(c)
                 B.execute(c)
@@ -336,6 +341,7 @@ class C19(Monitor):
             return []
         stats["handler_evaluations"] += 1
         stats["handler_" + code] += 1
+        stats["handler_mode_" + mode] += 1
         hs = core.hooked()
         fails = []
         for k, ax in enumerate("xyz"):
